@@ -460,7 +460,7 @@ def _unpatch_adjuster(saved):
     upload.ChunksizeAdjuster, copies.ChunksizeAdjuster = saved
 
 
-def run_scenario(sc, schedule=None, keep_trace=False, observe=False):
+def run_scenario(sc, schedule=None, keep_trace=False, observe=False, extra_install=None):
     tmpdir = tempfile.mkdtemp(prefix='s3v-ex-')
     sch = Scheduler(seed=sc['sched_seed'], mode=sc['mode'], schedule=schedule, max_steps=60000, stall=sc.get('stall'))
     sch.keep_trace = keep_trace
@@ -478,9 +478,12 @@ def run_scenario(sc, schedule=None, keep_trace=False, observe=False):
                 import observe as observe_mod
                 run.observer = observe_mod.Observer(env, sh)
                 run.observer.install()
+            extra_uninstall = extra_install(env, sh, run) if extra_install is not None else None
             try:
                 _run_inner(sc, sch, sh, env, run)
             finally:
+                if extra_uninstall is not None:
+                    extra_uninstall()
                 if run.observer is not None:
                     run.observer.uninstall()
     finally:
